@@ -1,6 +1,7 @@
 package main
 
 import (
+	"go/token"
 	"fmt"
 	"go/ast"
 	"go/constant"
@@ -34,6 +35,8 @@ func runC10(p *Program, r *Report) {
 	ruleBindIndex(p, r, "R10.7", []string{"pseudonymization.(*PostgreSQLTokenizeQuery).OnBind", "pseudonymization.(*MySQLTokenizeQuery).OnBind"})
 	r.Rule("R10.9", "E2", 4, "read-modify-write in one transaction: every Bucket.Put of the BoltDB token store writes a value that does not derive from a record read in another transaction closure (a stale write-back undoes a disable or removal committed in between)")
 	ruleR109(p, r)
+	r.Rule("R10.10", "E2", 6, "re-wrapping keeps the payload: every EmbedMetadata call of the token stores wraps the data handed to the method or the payload ExtractMetadata returned for the stored record, never the stored record itself")
+	ruleR1010(p, r)
 }
 
 func intWidth(t types.Type) (bits int, signed bool, ok bool) {
@@ -1146,4 +1149,64 @@ func init() {
 	mut("C10", "bolt Get writes back the record it read in the earlier read-only transaction (original defect)", "pseudonymization/storage/boltdb.go",
 		"\tvar accessTimeUpdate bool\n\tvar now time.Time\n\tctx := common.AggregateTokenContextToBytes(context)\n\terr := b.db.View(func(tx *bolt.Tx) error {\n\t\tbucket := tx.Bucket(tokenBucket)\n\t\tif bucket == nil {\n\t\t\treturn common.ErrTokenNotFound\n\t\t}\n\t\tctxBucket := bucket.Bucket(ctx)\n\t\tif ctxBucket == nil {\n\t\t\treturn common.ErrTokenNotFound\n\t\t}\n\t\tencoded := ctxBucket.Get(id)\n\t\tif encoded == nil {\n\t\t\treturn common.ErrTokenNotFound\n\t\t}\n\t\tdata, metadata, err := common.ExtractMetadata(encoded)\n\t\tif err != nil {\n\t\t\treturn err\n\t\t}\n\t\t// If the token is disabled, pretend that it's not there. (Don't update last access time either.)\n\t\tif metadata.Disabled {\n\t\t\treturn common.ErrTokenDisabled\n\t\t}\n\t\t// Keep last access time updated, but don't update it more often than specified granularity.\n\t\tnow = time.Now().UTC()\n\t\taccessTimeUpdate = metadata.AccessedBefore(now, b.accessGranularity)\n\t\tvalue = data\n\t\treturn nil\n\t})\n\tif err != nil {\n\t\treturn nil, err\n\t}\n\t// If metadata update is needed, open a separate writeable transaction to perform it.\n\tif accessTimeUpdate {\n\t\terr := b.db.Update(func(tx *bolt.Tx) error {\n\t\t\tbucket := tx.Bucket(tokenBucket)\n\t\t\tif bucket == nil {\n\t\t\t\treturn common.ErrTokenNotFound\n\t\t\t}\n\t\t\tctxBucket := bucket.Bucket(ctx)\n\t\t\tif ctxBucket == nil {\n\t\t\t\treturn common.ErrTokenNotFound\n\t\t\t}\n\t\t\t// The token may have been disabled or removed since it was read: look again,\n\t\t\t// so that the access time update never brings an older state of the entry back.\n\t\t\tencoded := ctxBucket.Get(id)\n\t\t\tif encoded == nil {\n\t\t\t\treturn common.ErrTokenNotFound\n\t\t\t}\n\t\t\tdata, metadata, err := common.ExtractMetadata(encoded)\n\t\t\tif err != nil {\n\t\t\t\treturn err\n\t\t\t}\n\t\t\tif metadata.Disabled {\n\t\t\t\treturn common.ErrTokenDisabled\n\t\t\t}\n\t\t\tmetadata.Accessed = now\n\t\t\treturn ctxBucket.Put(id, common.EmbedMetadata(data, metadata))\n",
 		"\tvar updatedMetadata []byte\n\tctx := common.AggregateTokenContextToBytes(context)\n\terr := b.db.View(func(tx *bolt.Tx) error {\n\t\tbucket := tx.Bucket(tokenBucket)\n\t\tif bucket == nil {\n\t\t\treturn common.ErrTokenNotFound\n\t\t}\n\t\tctxBucket := bucket.Bucket(ctx)\n\t\tif ctxBucket == nil {\n\t\t\treturn common.ErrTokenNotFound\n\t\t}\n\t\tencoded := ctxBucket.Get(id)\n\t\tif encoded == nil {\n\t\t\treturn common.ErrTokenNotFound\n\t\t}\n\t\tdata, metadata, err := common.ExtractMetadata(encoded)\n\t\tif err != nil {\n\t\t\treturn err\n\t\t}\n\t\t// If the token is disabled, pretend that it's not there. (Don't update last access time either.)\n\t\tif metadata.Disabled {\n\t\t\treturn common.ErrTokenDisabled\n\t\t}\n\t\t// Keep last access time updated, but don't update it more often than specified granularity.\n\t\tnow := time.Now().UTC()\n\t\tif metadata.AccessedBefore(now, b.accessGranularity) {\n\t\t\tmetadata.Accessed = now\n\t\t\tupdatedMetadata = common.EmbedMetadata(data, metadata)\n\t\t}\n\t\tvalue = data\n\t\treturn nil\n\t})\n\tif err != nil {\n\t\treturn nil, err\n\t}\n\t// If metadata update is needed, open a separate writeable transaction to perform it.\n\tif updatedMetadata != nil {\n\t\terr := b.db.Update(func(tx *bolt.Tx) error {\n\t\t\tbucket := tx.Bucket(tokenBucket)\n\t\t\tif bucket == nil {\n\t\t\t\treturn common.ErrTokenNotFound\n\t\t\t}\n\t\t\tctxBucket := bucket.Bucket(ctx)\n\t\t\tif ctxBucket == nil {\n\t\t\t\treturn common.ErrTokenNotFound\n\t\t\t}\n\t\t\treturn ctxBucket.Put(id, updatedMetadata)\n", "R10.9", "Get$")
+}
+
+// ---- R10.10: what is wrapped again is the payload, not the container.
+// Every common.EmbedMetadata call of the token stores wraps either the data the method was given (Save) or the
+// payload that common.ExtractMetadata returned for the stored record; wrapping the stored record itself nests the
+// container, and every later read returns the inner container instead of the original value.
+func ruleR1010(p *Program, r *Report) {
+	embed := p.FuncObj("pseudonymization/common.EmbedMetadata")
+	extract := p.FuncObj("pseudonymization/common.ExtractMetadata")
+	if embed == nil || extract == nil {
+		r.Anchor("R10.10", "common.EmbedMetadata / ExtractMetadata")
+		return
+	}
+	for _, fn := range p.srcFns {
+		if !strings.HasPrefix(p.FileOf(fn.Pos()), "pseudonymization/storage/") {
+			continue
+		}
+		for _, b := range fn.Blocks {
+			for _, in := range b.Instrs {
+				c, ok := in.(*ssa.Call)
+				if !ok || calleeOfCommon(c.Common()) != embed {
+					continue
+				}
+				arg := c.Call.Args[0]
+				ok2, how := false, "the wrapped value is neither the method's argument nor the payload returned by ExtractMetadata"
+				switch x := arg.(type) {
+				case *ssa.Parameter, *ssa.FreeVar:
+					ok2, how = true, "wraps the data handed to the method"
+				case *ssa.UnOp:
+					// a parameter of the method captured by reference (its cell holds nothing but the parameter)
+					if fv, isFV := x.X.(*ssa.FreeVar); isFV && x.Op == token.MUL {
+						if al, isAl := bindingOf(fn, fv).(*ssa.Alloc); isAl && al.Referrers() != nil {
+							n, onlyParam := 0, true
+							for _, rf := range *al.Referrers() {
+								if st, isSt := rf.(*ssa.Store); isSt && st.Addr == ssa.Value(al) {
+									n++
+									if _, isP := st.Val.(*ssa.Parameter); !isP {
+										onlyParam = false
+									}
+								}
+							}
+							if n > 0 && onlyParam {
+								ok2, how = true, "wraps the data handed to the method"
+							}
+						}
+					}
+				case *ssa.Extract:
+					if tc, isC := x.Tuple.(*ssa.Call); isC && calleeOfCommon(tc.Common()) == extract && x.Index == 0 {
+						ok2, how = true, "wraps the payload ExtractMetadata returned"
+					}
+				}
+				r.Check(ok2, "R10.10", fnName(fn), "EmbedMetadata wraps the payload", p.Pos(c.Pos()), how, how+" ("+exprTextOf(p, arg)+"): a stored record wrapped again nests the container, and every later Get returns the inner container instead of the value")
+			}
+		}
+	}
+}
+
+func init() {
+	mut("C10", "bolt Get refreshes the access time by wrapping the stored record again", "pseudonymization/storage/boltdb.go", "			return ctxBucket.Put(id, common.EmbedMetadata(data, metadata))", "			_ = data\n			return ctxBucket.Put(id, common.EmbedMetadata(encoded, metadata))", "R10.10", "Get")
+	mut("C10", "bolt maintenance re-wraps the stored record when disabling", "pseudonymization/storage/boltdb.go", "				metadata.Disabled = true\n				value := common.EmbedMetadata(data, metadata)", "				metadata.Disabled = true\n				value := common.EmbedMetadata(v, metadata)", "R10.10", "visitBucket")
 }
